@@ -126,8 +126,9 @@ structure Res where
   err : Option Err := none
 deriving DecidableEq, Repr
 
-/-- `for _ in range(num_items)` — the loop variable `tag` of the enclosing loop is *reassigned* by
-    `tag = utils.get_tag(…)` inside the body, so later iterations pop from the cell of the new tag -/
+/-- `for _ in range(num_items)`: every iteration pops one element per item from the cell of the key `tag` and
+    yields the schema retagged with `schema_tag = utils.get_tag(…)` (since fix 0672c9b the loop variable `tag` of the
+    enclosing loop is no longer overwritten) -/
 def prodIter : Nat → Tag → TV → List Emit → Res
   | 0, _, tv, out => ⟨tv, out, none⟩
   | n + 1, tag, tv, out =>
@@ -139,7 +140,7 @@ def prodIter : Nat → Tag → TV → List Emit → Res
           | some (es, c') =>
               let s := schemaOf es
               let tag' := schemaTag s
-              prodIter n tag' (tvSet tv tag c') (out ++ [retagAll tag' s])
+              prodIter n tag (tvSet tv tag c') (out ++ [retagAll tag' s])
 
 /-- `for tag in list(self._token_values): if len(self._token_values[tag]) == len(self.items): …` -/
 def prodLoop (nItems : Nat) : List Tag → TV → List Emit → Res
